@@ -6,32 +6,15 @@ mod similar {
     verus! {
 //@item file=registry:similar-2.7.0/src/types.rs kind=enum name=DiffOp
 
-    /// index in the new sequence at which the op starts
-    pub open spec fn op_new_index(op: DiffOp) -> int {
+    /// `DiffOp::new_range()` of an insert/replace op, `new_index..new_index + new_len`, is computed
+    /// by similar itself (types.rs `DiffOp::new_range`) and used to slice the new sequence; the only
+    /// thing assumed about an op is that this sum does not overflow.
+    pub open spec fn op_new_end_fits(op: DiffOp) -> bool {
         match op {
-            DiffOp::Equal { new_index, .. } => new_index as int,
-            DiffOp::Delete { new_index, .. } => new_index as int,
-            DiffOp::Insert { new_index, .. } => new_index as int,
-            DiffOp::Replace { new_index, .. } => new_index as int,
+            DiffOp::Insert { new_index, new_len, .. } => new_index + new_len <= usize::MAX,
+            DiffOp::Replace { new_index, new_len, .. } => new_index + new_len <= usize::MAX,
+            _ => true,
         }
-    }
-    /// number of items of the new sequence the op covers
-    pub open spec fn op_new_len(op: DiffOp) -> int {
-        match op {
-            DiffOp::Equal { len, .. } => len as int,
-            DiffOp::Delete { .. } => 0,
-            DiffOp::Insert { new_len, .. } => new_len as int,
-            DiffOp::Replace { new_len, .. } => new_len as int,
-        }
-    }
-    /// The ops tile the new sequence `0..n` left to right (similar's `DiffHook` contract: every
-    /// index of the new sequence is reported exactly once, in order, by equal/insert/replace), and
-    /// an insert/replace covers at least one item.
-    pub open spec fn ops_tile_new(ops: Seq<DiffOp>, n: int) -> bool {
-        &&& forall|i: int| 0 <= i < ops.len() ==> #[trigger] op_new_index(ops[i]) + op_new_len(ops[i]) <= n
-        &&& ops.len() > 0 ==> op_new_index(ops[0]) == 0
-        &&& forall|i: int| 0 <= i < ops.len() - 1 ==> #[trigger] op_new_index(ops[i + 1]) == op_new_index(ops[i]) + op_new_len(ops[i])
-        &&& forall|i: int| 0 <= i < ops.len() && ((#[trigger] ops[i]) is Insert || ops[i] is Replace) ==> op_new_len(ops[i]) > 0
     }
 
     /// stand-in for `similar::TextDiff<'old, 'new, 'bufs, str>`
@@ -41,14 +24,14 @@ mod similar {
     impl TextDiff {
         pub uninterp spec fn spec_ops(&self) -> Seq<DiffOp>;
 
-        /// `TextDiff::from_chars(old, new)`: a diff whose items are the `char`s of the two strings.
-        /// ASSUMED: the ops tile `0..n` where n is the number of chars of `new`, and n <= the number
-        /// of UTF-8 bytes of `new` (every char is encoded in at least one byte).
+        /// `TextDiff::from_chars(old, new)`. NOTHING is assumed about the order, the positions or
+        /// the tiling of the ops (an earlier version of this file assumed that the ops tile the new
+        /// string left to right ordered by `new_index`; that is FALSE for similar 2.7.0, e.g.
+        /// `from_chars("abab", "bb b")` — found by a bounded harness on the real crate).
         #[verifier::external_body]
         pub fn from_chars(old: &str, new: &str) -> (r: TextDiff)
             ensures
-                ops_tile_new(r.spec_ops(), new@.len() as int),
-                new@.len() <= new.len(),
+                forall|i: int| 0 <= i < r.spec_ops().len() ==> op_new_end_fits(#[trigger] r.spec_ops()[i]),
         { unimplemented!() }
 
         /// `TextDiff::ops(&self) -> &[DiffOp]` is `&self.ops`
